@@ -267,7 +267,7 @@ def r6(run, ctx):
     expected = {W + 'kill_processes', W + 'manage_processes', W + 'remove_expired_processes',
                 W + '_reload', 'circus.commands.kill:Kill.execute', W + 'spawn_process'}
     callers = {c.key for c, s in ctx.callers_of([W + 'kill_process'], kinds=('call',))}
-    run.count('R6', len(callers & expected), 5, 'callers of kill_process')
+    run.count('R6', len(callers & expected), 3, 'callers of kill_process')
     # terminating primitives reachable from Watcher methods only via kill_process /
     # Watcher.send_signal*/ Process.stop
     prim = [P + 'send_signal', P + 'stop', P + 'send_signal_child', P + 'send_signal_children']
@@ -292,7 +292,7 @@ def r6(run, ctx):
                           caller, s.node.ast,
                           '%s sends a signal / terminates a worker outside the graceful '
                           'termination routine' % caller.qualname)
-    run.count('R6', n, 6, 'call sites of process signal primitives')
+    run.count('R6', n, 3, 'call sites of process signal primitives')
     # terminations are awaited kill_process calls in the causes
     for key in (W + 'manage_processes', W + 'remove_expired_processes', W + 'kill_processes'):
         g = ctx.fn(key)
